@@ -304,8 +304,9 @@ def run(ctx):
         return False, f'the value `{txt}` is not `{dname}[{p}.name]`'
     run_r5(ctx, fn, ts, dname)
     run_r7(ctx, fn, ts, _outer_store(fn, st))
-    run_r6(ctx, fn, ts, st, bool(pairing_covers_keywords) or bool(inv) and not any(
-        isinstance(n, ast.Name) and n.id in positional for n in ast.walk(st.targets[0].slice)))
+    # (a dummy looked up through the inverse of arg_iter() for a variable taken from call.arguments is a positional pairing)
+    run_r6(ctx, fn, ts, st, bool(pairing_covers_keywords) and any(
+        isinstance(n, ast.Name) and n.id in positional and positional[n.id][1] in pairing_covers_keywords for n in ast.walk(st.targets[0].slice)))
     okv, why = value_ok(st.value, passed)
     if inv_ok and okv:
         ctx.judge('R4', 'callee data: key = callee dummy, value = caller value of the passed variable',
